@@ -157,6 +157,8 @@ def run(ctx):
     check_slice(ctx, db)
     check_call_sites(ctx, db)
     C05.check_tree(ctx, db)
+    from . import C20
+    C20.check_heap(ctx, db)   # fracture sorts the vertex coordinates that become cut positions
 
 
 MANIFEST = dict(
